@@ -245,6 +245,14 @@ func cmdCheck(args []string) int {
 		report("static", "writers: "+v, "violated", "?", "field written outside the functions that preserve its invariant", "")
 		failed = append(failed, oblRec{"static", "writers", "violated", "scan", "?", v})
 	}
+	if nl, lv := eng.checkLocked(prop); nl > 0 {
+		total += nl
+		discharged += nl - len(lv)
+		for _, v := range lv {
+			report("static", "lock: "+v, "violated", "?", "lock discipline", "")
+			failed = append(failed, oblRec{"static", "lock", "violated", "ssa dominance", "?", v})
+		}
+	}
 	for _, sc := range pc.Static {
 		if sc == "jsontags" {
 			n, vs := eng.checkJSONTags()
